@@ -3,6 +3,7 @@ package main
 import (
 	"fmt"
 	"os"
+	"os/exec"
 	"path/filepath"
 	"time"
 
@@ -78,4 +79,99 @@ func runReplay(path string) int {
 	return 1
 }
 
-func runSelftest(kind, prop string, seed int64) int { return fail2("selftest not implemented yet") }
+// runSelftest: determinism self-test. The same (world, mode, rapid seed) is executed in
+// several fresh OS processes under GOMAXPROCS 1, 4 and 16 (the Node bridge restarted each
+// time); the per-run event-log hashes must be identical lists.
+func runSelftest(kind, prop string, seed int64) int {
+	if kind != "determinism" {
+		return fail2("unknown selftest %q", kind)
+	}
+	propsToTest := []string{prop}
+	if prop == "all" {
+		propsToTest = []string{"C01", "C02", "C03", "C08", "C09", "C10", "C11", "C17", "C20"}
+	}
+	nSeeds := 12
+	if v := os.Getenv("VERIF_SELFTEST_SEEDS"); v != "" {
+		fmt.Sscan(v, &nSeeds)
+	}
+	total, diverged := 0, 0
+	for _, id := range propsToTest {
+		pc, err := getProp(id)
+		if err != nil || pc.custom != nil {
+			continue
+		}
+		worlds := pc.worldsFor(seed, "quick")
+		if len(worlds) > 3 {
+			worlds = worlds[:3]
+		}
+		b, err := world.NewBatch(worlds, world.Options{Passes: pc.passes, SkipTS: !pc.needTS})
+		if err != nil {
+			if b != nil {
+				b.Close()
+			}
+			return fail2("%v", err)
+		}
+		if pc.needTS {
+			world.AdmitTS(b)
+		}
+		scratch, _ := os.MkdirTemp("", "verif-selftest-")
+		var jobs []*job
+		type key struct {
+			w, mode string
+			rs      uint64
+		}
+		byKey := map[key][]*job{}
+		for _, bw := range b.Live() {
+			for _, mode := range pc.modes {
+				for s := 0; s < nSeeds; s++ {
+					rs := uint64(1000 + 97*s + int(seed))
+					for rep, procs := range []string{"1", "4", "16", "1"} {
+						j := &job{world: bw, mode: mode, checks: 20, rseed: rs, procs: procs,
+							out: filepath.Join(scratch, fmt.Sprintf("%s-%s-%d-%d.json", bw.Spec.Name, mode, s, rep))}
+						jobs = append(jobs, j)
+						k := key{bw.Spec.Name, mode, rs}
+						byKey[k] = append(byKey[k], j)
+					}
+				}
+			}
+		}
+		kf := loadKnown()
+		var knownSigs []string
+		for _, f := range kf.Findings {
+			if f.Property == id {
+				knownSigs = append(knownSigs, f.Signature)
+			}
+		}
+		runJobs(b, id, jobs, knownSigs, append(pc.extraEnv(b), "VERIF_LOGHASHES=1"), 16, 10*time.Minute)
+		for k, js := range byKey {
+			total++
+			ref := ""
+			for _, j := range js {
+				if j.res == nil {
+					fmt.Printf("selftest: %s %v: runner failed: %s\n", id, k, j.err)
+					diverged++
+					break
+				}
+				h := fmt.Sprint(j.res.LogHashes)
+				if ref == "" {
+					ref = h
+				} else if h != ref {
+					fmt.Printf("selftest: DIVERGENCE property=%s world=%s mode=%s rapid_seed=%d (GOMAXPROCS %s): event-log hashes differ\n", id, k.w, k.mode, k.rs, j.procs)
+					diverged++
+					break
+				}
+			}
+		}
+		b.Close()
+		os.RemoveAll(scratch)
+		fmt.Printf("selftest determinism: property=%s cases=%d (x4 processes each, GOMAXPROCS 1/4/16/1)\n", id, len(byKey))
+	}
+	// sources of nondeterminism that must not appear in the harness runtime
+	out, _ := exec.Command("grep", "-rn", "--include=*.go", `\.Range(`, filepath.Join(world.VerifDir, "simrt")).CombinedOutput()
+	fmt.Printf("selftest: .Range( occurrences in simrt (protoreflect Range over messages/maps is order-insensitive in its uses):\n%s", out)
+	fmt.Printf("selftest determinism: %d cases, %d diverged\n", total, diverged)
+	if diverged > 0 {
+		return 1
+	}
+	return 0
+}
